@@ -320,6 +320,9 @@ impl ZincEncode for Grid {
                 for (i, col) in self.columns.iter().enumerate() {
                     if let Some(tag) = row.get(&col.name) {
                         tag.zinc_encode(writer, InnerGrid::Yes)?;
+                    } else if self.columns.len() == 1 {
+                        // An empty line would end the grid: the only cell of the row is written as null
+                        writer.write_all(b"N")?;
                     }
                     if i < self.columns.len() - 1 {
                         writer.write_all(b",")?;
